@@ -32,6 +32,9 @@ def run(prog, rep):
     sub = _Relabel(rep, "C05.paramflow", "C08.template")
     for fam in families(prog):
         rep.part(c05.paramflow, prog, sub, fam)
+        # the explicit parameter must also reach its scipy slot through the SAME mapping as the stored one
+        # ("agrees with the template evaluated at those parameter values"): the slot rows of C05, filed here too
+        rep.part(c05.slots, prog, _Relabel(rep, "C05.slots", "C08.template"), fam)
     rep.part(chain, prog, rep)
     rep.expect_min("C08.values", 4)
     rep.expect_min("C08.forward", 4)
